@@ -62,6 +62,10 @@ def classify_advance(F, body, e, depth=0):
         calls = [c[1] for c in expr_calls(s)]
         if any("LineCruncher as core::iter::traits::iterator::Iterator>::next" in c for c in calls):
             return "cruncher position (counts the byte just returned)"
+        # the cruncher behind a std adaptor that only drops items (`crunch_remaining_bytes().take_while(..)`)
+        if any(c.endswith("Iterator>::next") and ("TakeWhile" in c or "Peekable" in c or "Take as" in c or "Fuse" in c) for c in calls) and \
+                any(c.endswith("Tokenizer::crunch_remaining_bytes") or c.endswith("LineCruncher::new") for c in calls):
+            return "cruncher position (counts the byte just returned)"
         if any(sfx(c, "data::parse_data_until_colon") for c in calls):
             return "bytes_chomped returned by the DATA parser"
     if s[0] == "place" and s[2] and s[2][-1] == ("(tuple)", "1") or s[0] in ("local",) or \
@@ -86,7 +90,10 @@ def classify_advance(F, body, e, depth=0):
                     if r is None:
                         # pattern bindings: `(byte, pos)` copied out of the iterator item
                         t2 = show(ee)
+                        names2 = [x[1] for x in expr_calls(ee)]
                         if "LineCruncher" in t2 and "next" in t2:
+                            r = "cruncher position (counts the byte just returned)"
+                        elif any(n.endswith("Iterator>::next") for n in names2) and any(n.endswith("Tokenizer::crunch_remaining_bytes") for n in names2):
                             r = "cruncher position (counts the byte just returned)"
                     if r is None:
                         return None
@@ -95,9 +102,16 @@ def classify_advance(F, body, e, depth=0):
                     c = d[2]
                     if "LineCruncher as core::iter::traits::iterator::Iterator>::next" in c.callee:
                         descs.append("cruncher position (counts the byte just returned)")
+                    elif c.callee.endswith("Iterator>::next") and c.args and \
+                            any(x[1].endswith("Tokenizer::crunch_remaining_bytes") for x in expr_calls(body.expr(c.args[0], depth=30))):
+                        descs.append("cruncher position (counts the byte just returned)")
                     else:
                         return None
             if descs:
+                # `let mut last = 0; .. last = pos; .. index += last`: the initial literal 0 advances nothing
+                real = [x for x in descs if x != "literal 0"]
+                if real and all(x == real[0] for x in real):
+                    return real[0]
                 return descs[0]
     if s[0] == "call":
         if sfx(s[1], "LineCruncher::pos"):
